@@ -125,6 +125,7 @@ def analyse(body, spec=None, carries=lambda ty, cm: cm, track_all_vars=False):
     take_info = {}    # block -> (dest key, root key, empty variant)
     store_info = {}   # block -> root key
     excuse_calls = {} # block -> (switch value, fact)
+    explicit_drops = {}  # block -> Operand (mem::drop(x))
     for b in blocks:
         if b.cleanup or b.term.k != 'call':
             continue
@@ -177,6 +178,10 @@ def analyse(body, spec=None, carries=lambda ty, cm: cm, track_all_vars=False):
                 if not any(re.search(rx, path) for rx, _ in spec.allow_lossy):
                     res.lossy.append({'block': b.i, 'callee': path, 'on': a0ty, 'sp': t.sp})
                 continue
+        # explicit drop(x): same as a Drop terminator
+        if moved_cm and path in ('std::mem::drop', 'core::mem::drop'):
+            explicit_drops[b.i] = moved_cm[0]
+            continue
         # CONSUMER
         if moved_cm and not dest_cm:
             if not any(re.search(rx, path) for rx, _ in spec.allow_consumer):
@@ -294,10 +299,16 @@ def analyse(body, spec=None, carries=lambda ty, cm: cm, track_all_vars=False):
 
     # LIVE-DROP
     for b in blocks:
-        if b.cleanup or b.term.k != 'drop' or not b.term.d['cm']:
+        if b.cleanup:
             continue
-        ty = b.term.d['ty']
-        p = b.term.place
+        if b.i in explicit_drops:
+            p = explicit_drops[b.i].place
+            ty = p.t
+        elif b.term.k == 'drop' and b.term.d['cm']:
+            ty = b.term.d['ty']
+            p = b.term.place
+        else:
+            continue
         if not owns_msgs(ty):
             continue
         pshow = _stable_show(body, p)
